@@ -66,6 +66,7 @@ func c16(c *core.Check) {
 	c16ZIndexPositioned(c)
 	c16InsertPositions(c)
 	c16ContainerClasses(c)
+	c16ClearedIsTested(c)
 
 	dsc := p.Method("html/document", "drawContext", "drawStackingContext")
 	if dsc == nil {
